@@ -132,6 +132,29 @@ def gen_valid(rng, n, wants):
     return out
 
 
+def gen_string_reuse(rng, n, wants):
+    """Small arrays and maps whose strings repeat (the de-duplication path keeps the reading buffer) and are
+    then followed by longer, shorter and equal ones."""
+    pool = [b"", b"a", b"ab", b"abc", b"hello", b"a" * 31, b"b" * 32, b"c" * 40, b"a\x00b"]
+    out = []
+    for _ in range(n):
+        strs = []
+        for _ in range(rng.randrange(2, 7)):
+            strs.append(rng.choice(strs) if strs and rng.random() < 0.45 else rng.choice(pool))
+        if rng.random() < 0.5:
+            b = enc_len(rng, len(strs), (0x90, 16), [(0xDC, 2), (0xDD, 4)]) + b"".join(enc_str(rng, x) for x in strs)
+            v = node("a", c=[node("s", x) for x in strs])
+        else:
+            keys = list(dict.fromkeys(strs))
+            vals = [rng.choice(strs) for _ in keys]
+            b = enc_len(rng, len(keys), (0x80, 16), [(0xDE, 2), (0xDF, 4)]) + \
+                b"".join(enc_str(rng, k_) + enc_str(rng, x) for k_, x in zip(keys, vals))
+            v = node("o", c=[node("m", k_, [node("s", x)]) for k_, x in zip(keys, vals)])
+        out.append(line(b, lim=10, tag="reuse"))
+        wants.append(v)
+    return out
+
+
 def gen_prefixes_and_corruptions(rng, n):
     out = []
     for _ in range(n):
@@ -187,5 +210,5 @@ def gen_sessions(rng, n):
     for _ in range(n):
         k = rng.randrange(1, 5)
         data = b"".join(rand_value(rng, maxdepth=2)[0] for _ in range(k))
-        out.append(line(data, tag="session", session=k + 1))
+        out.append(line(data, tag="session", session=k + 1, f=rand_filter(rng) if rng.random() < 0.3 else None))
     return out
